@@ -367,7 +367,7 @@ func runC02(w *World, c *Check) {
 		lw3.Scope = lw.Scope
 		sawKey, sawName := false, false
 		aP := substParams(isReplay, "@1") // the authenticator parameter
-		keyTerms := map[string]string{} // rendered key -> where
+		keyTerms := map[string]string{}   // rendered key -> where
 		nCT := 0
 		lw3.Visit = func(ctx *LockCtx, in ssa.Instruction, held []Held) {
 			where := w.Pos(InstrPos(in))
